@@ -73,9 +73,42 @@ func (z *Decimal) Sqrt(x *Decimal) *Decimal {
 	// very small precisions (<_DW/2).
 	//
 	// Solve 1/x² - z = 0 instead.
-	z.sqrtInverse(z)
+	if prec > MaxPrec-3 {
+		// no room for guard digits
+		z.sqrtInverse(z)
+		return z.SetMantExp(z, b/2)
+	}
 
-	// restore precision and re-attach halved exponent
+	// The Newton iteration only gets close to the root. Compute it with two
+	// guard digits, truncating, then correct the last digit by comparing
+	// exact squares with the operand, and finally round once to prec digits.
+	wp := prec + 2
+	xx := new(Decimal).Copy(z) // the scaled operand (exact)
+	z.prec, z.mode = wp, ToZero
+	z.sqrtInverse(z)
+	// z ≈ √xx; ulp = one unit in the wp-th digit of z
+	ulp := new(Decimal).SetMantExp(NewDecimal(1, 0), int(z.exp)-int(wp))
+	if ulp.form == finite {
+		sq := new(Decimal).SetPrec(2*uint(wp) + 2) // holds the squares exactly
+		up := new(Decimal).SetPrec(uint(wp) + 1)
+		for sq.Mul(z, z).Cmp(xx) > 0 {
+			z.Sub(z, ulp)
+		}
+		for sq.Mul(up.Add(z, ulp), up).Cmp(xx) <= 0 {
+			z.Set(up)
+		}
+		// z <= √xx < z + ulp
+		if sq.Mul(z, z).Cmp(xx) != 0 {
+			// √xx lies strictly between z and z+ulp: z + ulp/2 rounds to prec
+			// digits exactly as √xx does, whatever the rounding mode.
+			z.prec = wp + 1
+			z.Add(z, ulp.Mul(ulp, oneHalf))
+		}
+	}
+	z.mode = mode
+	z.SetPrec(uint(prec)) // the one and only rounding
+
+	// re-attach halved exponent
 	return z.SetMantExp(z, b/2)
 }
 
